@@ -1,8 +1,6 @@
 """Contracts for prosemirror/model/mark.py and the mark-related parts of schema.py (C14; used by C11, C13)."""
 import os
 
-import z3  # noqa: F401  (only for the class-attribute constant below; never imported natively)
-
 from pyvc.api import cls, contract, lemma, spec_file
 
 FM = "prosemirror/model/mark.py"
@@ -43,6 +41,7 @@ contract(FM, "Mark.add_to_set", {"self": "Mark", "set": "list[Mark]"}, returns="
              "copy is not None ==> copy == addw(self, set, i)",
          ])},
          locals={"copy": "opt[list[Mark]]"},
+         uses=["decisive-at"],
          props=P + ["C11", "C13"])
 
 contract(FM, "Mark.same_set", {"a": "list[Mark]", "b": "list[Mark]"}, returns="bool",
@@ -51,10 +50,31 @@ contract(FM, "Mark.same_set", {"a": "list[Mark]", "b": "list[Mark]"}, returns="b
          uses=["first-ne-refl"],
          props=P)
 
-lemma("first-ne-refl", {"a": "list[Mark]", "d": "int"},
-      requires=["0 <= d", "d <= len(a)"],
-      ensures=["first_ne(a, a, len(a) - d) < 0"],
-      induct="d", triggers=["first_ne(a, a, len(a) - d)"], props=P)
+lemma("first-ne-refl", {"a": "list[Mark]", "k": "int"},
+      requires=["0 <= k", "k <= len(a)"],
+      ensures=["first_ne(a, a, k) < 0"],
+      induct="k", step=1, decreases="len(a) - k", triggers=["first_ne(a, a, k)"], props=P)
+
+lemma("nodec-antitone", {"me": "Mark", "s": "list[Mark]", "k": "int", "n": "int"},
+      requires=["0 <= k", "k <= n", "n <= len(s)", "not nodec(me, s, k)"],
+      ensures=["not nodec(me, s, n)"],
+      induct="n", triggers=["nodec(me, s, k)", "nodec(me, s, n)"], props=P)
+
+lemma("decisive-at", {"me": "Mark", "s": "list[Mark]", "j": "int", "n": "int"},
+      requires=["0 <= j", "j < n", "n <= len(s)", "nodec(me, s, j)",
+                "meq(me, s[j]) or (not excl(me.type, s[j].type) and excl(s[j].type, me.type))"],
+      ensures=["not nodec(me, s, n)"],
+      induct="n", triggers=["nodec(me, s, j)", "nodec(me, s, n)"], props=P)
+
+lemma("all-allowed-first", {"nt": "NodeType", "s": "list[Mark]", "k": "int"},
+      requires=["nt.mark_set is None", "0 <= k", "k <= len(s)"],
+      ensures=["first_disallowed(nt, s, k) < 0"],
+      induct="k", step=1, decreases="len(s) - k", triggers=["first_disallowed(nt, s, k)"], props=P)
+
+lemma("all-allowed-filter", {"nt": "NodeType", "s": "list[Mark]", "k": "int"},
+      requires=["nt.mark_set is None", "0 <= k", "k <= len(s)"],
+      ensures=["filt_allowed(nt, s, k) == s[0:k]"],
+      induct="k", triggers=["filt_allowed(nt, s, k)"], props=P)
 
 contract(FS, "MarkType.remove_from_set", {"self": "MarkType", "set_": "list[Mark]"}, returns="list[Mark]",
          ensures=["result == filt_type(self, set_, len(set_))"],
@@ -75,6 +95,7 @@ contract(FS, "NodeType.allows_mark_type", {"self": "NodeType", "mark_type": "Mar
 contract(FS, "NodeType.allows_marks", {"self": "NodeType", "marks": "list[Mark]"}, returns="bool",
          ensures=["result == (first_disallowed(self, marks, 0) < 0)"],
          loops={0: dict(invariant=["first_disallowed(self, marks, 0) == first_disallowed(self, marks, _i0)", "_acc0"])},
+         uses=["all-allowed-first"],
          props=P + ["C07"])
 
 contract(FS, "NodeType.allowed_marks", {"self": "NodeType", "marks": "list[Mark]"}, returns="list[Mark]",
@@ -85,10 +106,13 @@ contract(FS, "NodeType.allowed_marks", {"self": "NodeType", "marks": "list[Mark]
              "copy is not None ==> copy == filt_allowed(self, marks, _i0)",
          ])},
          locals={"copy": "opt[list[Mark]]"},
+         uses=["all-allowed-filter"],
          props=P + ["C11"])
 
 
 def _register_class_attrs():
+    import z3
+
     from pyvc.kinds import VSeq, sort_of
     from pyvc.symexec import CLASS_ATTRS
 
